@@ -330,3 +330,101 @@ Theorem C01_source_command_exit :
     MC.entry_exit e (MR.summarize_final (stats_to_model s)) (policy_to_model p).
 Proof. exact gen_command_exit_is_model. Qed.
 Print Assumptions C01_source_command_exit.
+
+(* ---- the decision after each attempt (C07) *)
+
+(* C07 "run again after each failed attempt until an attempt passes or N+1 attempts have been made": the model
+   decision retries exactly the non-passing attempts that have attempts left -- whatever KIND of failure *)
+Theorem C07_attempt_retry_iff :
+  forall passed a t, MA.after_attempt passed a t = MA.ARetry <-> passed = false /\ a < t.
+Proof. exact PA.after_attempt_retry_iff. Qed.
+Print Assumptions C07_attempt_retry_iff.
+
+(* The `if`/`match` the loop body of ExecutorContext::run_test_instance ends in, branch by branch (does it `break`
+   -- Finished follows the loop -- or go round again, and which ExecutorEvent does it send), as a function of the
+   attempt's result and RetryData: it is [MA.after_attempt] of ExecutionResult::is_success. Retrying only
+   ExecutionResult::Fail (so that a timed-out or exec-failed attempt is final) falsifies it. *)
+Theorem C07_source_after_attempt :
+  forall r attempt total,
+    exit_to_model (G.run_test_instance_after_attempt r (G.mk_RetryData attempt total)) =
+    Some (MA.after_attempt (MR.is_success (result_to_model r)) attempt total).
+Proof. exact gen_after_attempt_is_model. Qed.
+Print Assumptions C07_source_after_attempt.
+
+(* One iteration of the loop C07's theorems are about (Model/Backoff.v [attempt_loop]: C07_attempts, C07_stop_on_success,
+   C07_delays ...), instantiated with the generated result type and the generated is_success, IS that generated
+   decision. *)
+Theorem C07_source_attempt_loop :
+  forall f attempt delay bs total outcome accept js,
+    MB.attempt_loop G.ExecutionResult G.ExecutionResult_is_success (S f) attempt delay bs total outcome accept js =
+    if (1 <? attempt) && negb (accept attempt) then (nil, MB.Refused)
+    else
+      let r := outcome attempt in
+      let rec := MB.Build_attempt_rec G.ExecutionResult attempt delay r in
+      match exit_to_model (G.run_test_instance_after_attempt r (G.mk_RetryData attempt total)) with
+      | Some MA.AFinish => (rec :: nil, MB.Finished)
+      | Some MA.ARetry =>
+          match MB.b_next (js attempt) bs with
+          | None => (rec :: nil, MB.Panicked)
+          | Some (d, bs') =>
+              let '(l, e) := MB.attempt_loop G.ExecutionResult G.ExecutionResult_is_success f (attempt + 1) d bs' total
+                               outcome accept js in
+              (rec :: l, e)
+          end
+      | None => (rec :: nil, MB.Panicked)
+      end.
+Proof. exact gen_attempt_loop_step. Qed.
+Print Assumptions C07_source_attempt_loop.
+
+(* The whole-life unit model (Model/UnitLife.v, C07 / C11 / C12 over real time) makes the same decision. *)
+Theorem C07_unit_life_decision :
+  forall c s u,
+    NextestModel.Model.UnitLife.finish_attempt c s u =
+    let r := NextestModel.Model.UnitLife.Build_arec (NextestModel.Model.UnitLife.l_k s)
+               (NextestModel.Model.UnitTimers.uresult u) (NextestModel.Model.UnitTimers.slow u)
+               (NextestModel.Model.UnitTimers.time_taken u) in
+    match MA.after_attempt (NextestModel.Model.UnitLife.ures_success (NextestModel.Model.UnitTimers.uresult u))
+            (NextestModel.Model.UnitLife.l_k s) (NextestModel.Model.UnitLife.lc_total c) with
+    | MA.AFinish =>
+        NextestModel.Model.Clocks.Ok
+          (NextestModel.Model.UnitLife.mkl NextestModel.Model.UnitLife.LFinishedP (NextestModel.Model.UnitLife.l_k s)
+             (NextestModel.Model.UnitLife.l_bs s) (NextestModel.Model.UnitLife.l_delay s)
+             (r :: NextestModel.Model.UnitLife.l_done s),
+           NextestModel.Model.UnitLife.LFinished (NextestModel.Model.UnitLife.l_k s) :: nil)
+    | MA.ARetry =>
+        match MB.b_next (NextestModel.Model.UnitLife.lc_js c (NextestModel.Model.UnitLife.l_k s))
+                (NextestModel.Model.UnitLife.l_bs s) with
+        | None => NextestModel.Model.Clocks.Panicked
+        | Some (d, bs') =>
+            NextestModel.Model.Clocks.Ok
+              (NextestModel.Model.UnitLife.mkl
+                 (NextestModel.Model.UnitLife.LDelay (NextestModel.Model.UnitTimers.dinit d))
+                 (NextestModel.Model.UnitLife.l_k s) bs' d (r :: NextestModel.Model.UnitLife.l_done s),
+               NextestModel.Model.UnitLife.LAttemptFailedWillRetry (NextestModel.Model.UnitLife.l_k s) d :: nil)
+        end
+    end.
+Proof. exact PA.finish_attempt_decision. Qed.
+Print Assumptions C07_unit_life_decision.
+
+(* C07 / C06: `let retry_policy = self.force_retries.unwrap_or_else(|| settings.retries())` and `total_attempts =
+   retry_policy.count() + 1` at the top of run_test_instance are effective_policy / p_count + 1 of Model/Backoff.v
+   (run_test_instance) and Model/RetryResolve.v (resolved_policy). *)
+Theorem C07_source_retry_policy :
+  forall force own,
+    retry_policy_to_model (G.run_test_instance_retry_policy force own) =
+    MB.effective_policy (option_map retry_policy_to_model force) (retry_policy_to_model own) /\
+    G.run_test_instance_total_attempts force own =
+    MB.p_count (MB.effective_policy (option_map retry_policy_to_model force) (retry_policy_to_model own)) + 1.
+Proof. exact gen_retry_policy_and_total. Qed.
+Print Assumptions C07_source_retry_policy.
+
+(* C07 "A --retries value given on the command line or in NEXTEST_RETRIES replaces every test's policy, delays
+   included", on the source text end to end (to_builder -> build -> run_test_instance). *)
+Theorem C07_source_forced_retries :
+  forall o cs b n own,
+    G.TestRunnerOpts_to_builder o cs = Some b ->
+    G.TestRunnerOpts_retries o = Some n ->
+    retry_policy_to_model (G.run_test_instance_retry_policy (G.build_force_retries b) own) = MB.new_without_delay n /\
+    G.run_test_instance_total_attempts (G.build_force_retries b) own = n + 1.
+Proof. exact gen_forced_retries. Qed.
+Print Assumptions C07_source_forced_retries.
